@@ -979,11 +979,11 @@ func knownScenarioCJSOrder(root string, st *Stats) {
 }
 
 // Fixed scenarios: tree shaking on vs off through api.Build, executed in Node.
-//   known-nested-var-use-not-linked (finding C04-B, known_findings.d/C04.json):
+//   nested-var-use-linked (finding C04-B, fixed in /repo by ae718d6; must pass):
 //     a use of a top-level var through a nested redeclaration `{ var n; use(n) }`
-//     is recorded under the unmerged nested symbol, the linker's
-//     TopLevelSymbolToParts lookup finds nothing, no dependency is created and
-//     the top-level `var n = 1` is tree-shaken: the bundle prints undefined.
+//     is recorded under the unmerged nested symbol; the linker now follows the
+//     symbol links before the TopLevelSymbolToParts lookup, so the top-level
+//     `var n = 1` stays. Before the fix the bundle printed undefined.
 //   nested-var-redeclare-assignment (regression of fix 0bc1420): the nested
 //     declaration must survive --minify-syntax block flattening.
 func fixedTreeShakingScenarios(root string, st *Stats) {
@@ -995,12 +995,12 @@ func fixedTreeShakingScenarios(root string, st *Stats) {
 		trans bool // api.Transform (format conversion without bundling) instead of api.Build
 	}
 	scens := []scen{
-		{"known-nested-var-use-not-linked", "var n = 1;\n{ var n; $p(\"use\", n); }\n", false, true, false},
-		{"known-nested-var-use-not-linked", "function f() { return 1; }\nif (true) { var f; $p(\"use\", typeof f); }\n", false, true, false},
+		{"nested-var-use-linked", "var n = 1;\n{ var n; $p(\"use\", n); }\n", false, true, false},
+		{"nested-var-use-linked", "function f() { return 1; }\nif (true) { var f; $p(\"use\", typeof f); }\n", false, true, false},
 		{"nested-var-redeclare-assignment", "var x = 1;\n{ var x = \"a\"; }\n$p(\"typeof\", typeof x);\n", true, false, false},
 		{"nested-var-redeclare-assignment", "var x = 1;\n{ var x = \"a\"; }\n$p(\"typeof\", typeof x);\n", true, false, true},
 		{"nested-var-redeclare-assignment", "function w() {}\nif (true) { var w = [1]; }\n$p(\"typeof\", typeof w);\n", true, false, true},
-		{"known-nested-var-use-not-linked", "var n = 1;\n{ var n; $p(\"use\", n); }\n", false, true, true},
+		{"nested-var-use-linked", "var n = 1;\n{ var n; $p(\"use\", n); }\n", false, true, true},
 		{"nested-var-redeclare-assignment", "var y = 1;\nif (true) { var y = [$p(\"init\")]; }\n$p(\"typeof\", typeof y);\n", true, false, false},
 		// regression of fix 5379ad1: a call to an EMPTY function still evaluates its default arguments
 		{"empty-function-default-argument", "function f(a = $p(\"default\")) {}\nf();\n$p(\"end\");\n", true, false, false},
